@@ -198,5 +198,6 @@ let register (reg : string -> (string list -> string) -> unit) =
   reg "xml" (function [k; t] -> xml_case k t | [k] -> xml_case k "" | _ -> "BADARGS");
   reg "xml_escattr" (function [v] -> hexe (XmlModel.escape_attr_val (hexd v)) | _ -> "BADARGS");
   reg "xml_esccdata" (function [v] -> let (e, u) = XmlModel.escape_cdata_val (hexd v) in (if u then "true " else "false ") ^ hexe e | _ -> "BADARGS");
+  reg "ws_collapse" (function [v] -> hexe (Ws.collapse (hexd v)) | _ -> "BADARGS");
   reg "tokbuf" (function [t; o] -> tokbuf t o | _ -> "BADARGS");
   reg "json_tree" (function [t] -> show_events (JsonSpec.events_of JsonModel.SValue (parse_tree t)) | _ -> "BADARGS")
